@@ -396,3 +396,218 @@ func exportReaderUnconditional(p *Prog, r *Report, rule, m string, exportReach m
 		}
 	}
 }
+
+// keyParts: for a store-key constructor of a types package built as nested appends onto a
+// package-level prefix, the prefix global and the sequence of appended components, each
+// described by the parameter it is made from (identifier kind for uint64, type otherwise).
+func (p *Prog) keyParts(f *ssa.Function) (glob string, parts []string, ok bool) {
+	if len(f.Blocks) != 1 {
+		return "", nil, false
+	}
+	var ret *ssa.Return
+	for _, in := range f.Blocks[0].Instrs {
+		if r, isR := in.(*ssa.Return); isR {
+			ret = r
+		}
+	}
+	if ret == nil || len(ret.Results) != 1 {
+		return "", nil, false
+	}
+	var desc func(v ssa.Value) string
+	desc = func(v ssa.Value) string {
+		for d := 0; d < 8; d++ {
+			switch x := v.(type) {
+			case *ssa.Parameter:
+				if isUint64(x.Type()) {
+					if k := kindOfName(x.Name()); k != "" {
+						return "u64:" + k
+					}
+					return "u64:" + strings.ToLower(x.Name())
+				}
+				return x.Type().String()
+			case *ssa.Call:
+				if len(x.Call.Args) == 0 {
+					return "?"
+				}
+				v = x.Call.Args[0]
+			case *ssa.ChangeType:
+				v = x.X
+			case *ssa.Convert:
+				v = x.X
+			case *ssa.MakeInterface:
+				v = x.X
+			case *ssa.Slice:
+				v = x.X
+			default:
+				return "?"
+			}
+		}
+		return "?"
+	}
+	var walk func(v ssa.Value, d int) bool
+	walk = func(v ssa.Value, d int) bool {
+		if d > 12 {
+			return false
+		}
+		switch x := v.(type) {
+		case *ssa.Call:
+			if bi, isB := x.Call.Value.(*ssa.Builtin); isB && bi.Name() == "append" && len(x.Call.Args) == 2 {
+				if !walk(x.Call.Args[0], d+1) {
+					return false
+				}
+				parts = append(parts, desc(x.Call.Args[1]))
+				return true
+			}
+			return false
+		case *ssa.UnOp:
+			if g, isG := x.X.(*ssa.Global); isG {
+				glob = g.Name()
+				return true
+			}
+			return false
+		}
+		return false
+	}
+	if !walk(ret.Results[0], 0) || glob == "" {
+		return "", nil, false
+	}
+	return glob, parts, true
+}
+
+// keyLayoutRule: records written under K(prefix, a, b, c) are iterated with the scan prefix
+// P(prefix, a): the components of every shorter constructor over the same prefix global are
+// the leading components of the longer ones. A record key whose leading components differ
+// from its scan prefix is written where no iterator (and so no export) finds it.
+func keyLayoutRule(p *Prog, r *Report, rule string, floor int) {
+	r.Rule(rule, "store keys over one prefix share their leading components with the scan prefix used to iterate them", floor)
+	type kc struct {
+		f     *ssa.Function
+		parts []string
+	}
+	byGlob := map[string][]kc{}
+	for _, f := range p.Funcs {
+		if !isComdexFn(f) || f.Signature.Recv() != nil || !strings.HasSuffix(fnPkgPath(f), "/types") || !strings.Contains(f.Name(), "Key") || len(f.Blocks) == 0 {
+			continue
+		}
+		g, parts, ok := p.keyParts(f)
+		if !ok {
+			continue
+		}
+		key := fnPkgPath(f) + "." + g
+		byGlob[key] = append(byGlob[key], kc{f, parts})
+	}
+	var gs []string
+	for g := range byGlob {
+		gs = append(gs, g)
+	}
+	sort.Strings(gs)
+	for _, g := range gs {
+		fam := byGlob[g]
+		sort.Slice(fam, func(i, j int) bool { return fname(fam[i].f) < fname(fam[j].f) })
+		for _, short := range fam {
+			if len(short.parts) == 0 {
+				continue
+			}
+			for _, long := range fam {
+				if long.f == short.f || len(long.parts) <= len(short.parts) {
+					continue
+				}
+				known := true
+				for _, d := range append(append([]string{}, short.parts...), long.parts[:len(short.parts)]...) {
+					if d == "?" {
+						known = false
+					}
+				}
+				if !known {
+					continue
+				}
+				r.Instance(rule)
+				construct := fmt.Sprintf("%s is a prefix of %s", short.f.Name(), long.f.Name())
+				same := true
+				for i := range short.parts {
+					if short.parts[i] != long.parts[i] {
+						same = false
+					}
+				}
+				if same {
+					r.OK(rule, construct, "leading components agree ("+strings.Join(short.parts, ", ")+")", p.pos(long.f.Pos()))
+				} else {
+					r.Fail(rule, construct, fmt.Sprintf("%s builds (%s), %s begins with (%s): records written under the longer key are not found by a scan with the shorter one, so they are missing from every iteration and from the export", short.f.Name(), strings.Join(short.parts, ", "), long.f.Name(), strings.Join(long.parts[:len(short.parts)], ", ")), p.pos(long.f.Pos()), nil)
+				}
+			}
+		}
+	}
+}
+
+// freshDecodeTargetRule: a bulk reader decodes every stored value into a target that is
+// fresh for that iteration. Proto decoding does not reset its target (repeated fields are
+// appended, absent scalars keep the previous value): a target declared outside the loop
+// carries one record's content into the next.
+func freshDecodeTargetRule(p *Prog, r *Report, rule string, floor int) {
+	r.Rule(rule, "a value decoded inside a loop is decoded into a target declared inside that loop", floor)
+	for _, fn := range p.Funcs {
+		if !isComdexFn(fn) || p.isAuxFn(fn) || len(fn.Blocks) == 0 || !strings.HasSuffix(fnPkgPath(fn), "/keeper") {
+			continue
+		}
+		if strings.HasPrefix(fn.Name(), "Migrate") {
+			continue // one-off upgrade migrations of an older store layout are not part of the round trip
+		}
+		loops := loopsOf(fn)
+		if len(loops) == 0 {
+			continue
+		}
+		n := 0
+		for _, c := range calls(fn) {
+			nm := ""
+			if c.Common().IsInvoke() {
+				nm = c.Common().Method.Name()
+			} else if sc := c.Common().StaticCallee(); sc != nil {
+				nm = sc.Name()
+			}
+			if nm != "MustUnmarshal" && nm != "Unmarshal" {
+				continue
+			}
+			var inLoop *Loop
+			for _, l := range loops {
+				if l.Body[c.Block()] && (inLoop == nil || len(l.Body) < len(inLoop.Body)) {
+					inLoop = l
+				}
+			}
+			if inLoop == nil {
+				continue
+			}
+			var target *ssa.Alloc
+			for _, a := range c.Common().Args {
+				if al, ok := a.(*ssa.Alloc); ok {
+					target = al
+				}
+				if mi, ok := a.(*ssa.MakeInterface); ok {
+					if al, ok2 := mi.X.(*ssa.Alloc); ok2 {
+						target = al
+					}
+				}
+			}
+			if target == nil {
+				continue
+			}
+			n++
+			r.Instance(rule)
+			r.FuncsSeen[fname(fn)] = true
+			construct := fmt.Sprintf("%s decode #%d", fname(fn), n)
+			fresh := inLoop.Body[target.Block()]
+			if !fresh {
+				// reset by a whole-value store inside the loop before the decode
+				for _, ref := range *target.Referrers() {
+					if st, ok := ref.(*ssa.Store); ok && st.Addr == ssa.Value(target) && inLoop.Body[st.Block()] {
+						fresh = true
+					}
+				}
+			}
+			if fresh {
+				r.OK(rule, construct, "target is fresh in every iteration", p.instrPos(c))
+			} else {
+				r.Fail(rule, construct, "the decode target is declared outside the loop and never reset: proto decoding appends repeated fields and keeps absent scalars, so every record after the first is read with parts of the previous ones (and exported that way)", p.instrPos(c), nil)
+			}
+		}
+	}
+}
